@@ -689,3 +689,38 @@ func noFailureAsSuccess(c *Check, rule string, fns []*ssa.Function) {
 	n := staleNilError(c, rule, fns)
 	c.Req(len(fns) > 0, rule, "functions scanned", token.NoPos, fmt.Sprintf("%d function(s), %d finding(s)", len(fns), n), "no function in scope (anchor drifted)")
 }
+
+// constructorBindings: a constructor that fills a struct literal from its parameters gives each field the parameter of
+// its own name: no parameter whose name is that of field G ends up in field F (two same-typed arguments swapped).
+func constructorBindings(c *Check, rule string, pkgFrag string) {
+	n := 0
+	for fn := range c.P.AllFuncs {
+		if !inScope(fn) || len(fn.Blocks) == 0 || fn.Signature.Recv() != nil || !strings.Contains(fnPkgPath(fn), pkgFrag) || !strings.HasPrefix(fn.Name(), "New") {
+			continue
+		}
+		rets := c.P.RetExprs(fn, 0)
+		if len(rets) != 1 || rets[0].Op != "lit" {
+			continue
+		}
+		fields := map[string]bool{}
+		for _, kv := range rets[0].Args {
+			if kv.Op == "kv" {
+				fields[strings.ToLower(kv.Name)] = true
+			}
+		}
+		for _, kv := range rets[0].Args {
+			if kv.Op != "kv" || kv.Args[0].Op != "param" {
+				continue
+			}
+			var i int
+			if _, err := fmt.Sscanf(kv.Args[0].Name, "$%d", &i); err != nil || i >= len(fn.Params) {
+				continue
+			}
+			pname := strings.ToLower(fn.Params[i].Name())
+			n++
+			wrong := pname != strings.ToLower(kv.Name) && fields[pname]
+			c.Req(!wrong, rule, fmt.Sprintf("%s/field %s", funcName(fn), kv.Name), fn.Pos(), "bound to parameter "+fn.Params[i].Name(), fmt.Sprintf("field %s is filled from parameter %q although the struct has a field of that name: two arguments of the same type are crossed", kv.Name, fn.Params[i].Name()))
+		}
+	}
+	c.Req(n > 0, rule, "constructor fields examined", token.NoPos, fmt.Sprint(n), "no constructor literal found")
+}
